@@ -565,6 +565,23 @@ func (fc *FnCtx) applyContract(st *State, ct *FuncContract, fn *types.Func, cpos
 	pre := st.clone()
 	// requires
 	for k, cl := range ct.Requires {
+		// a callee precondition is an obligation of the caller only in the checks of the properties that own the
+		// clause; a caller verified for other properties neither proves nor relies on it
+		if fc.prop != "" {
+			owners := cl.Props
+			if len(owners) == 0 {
+				owners = ct.Props
+			}
+			mine := len(owners) == 0 // library contracts have no owner: always checked
+			for _, p := range owners {
+				if p == fc.prop {
+					mine = true
+				}
+			}
+			if !mine {
+				continue
+			}
+		}
 		t := fc.specBool(st, cl.Expr, &specEnv{fc: fc, st: st, old: st, bind: bind, callee: ct})
 		fc.assert(st, "requires", fmt.Sprintf("call[%s].%s", key, clauseName("requires", cl, k)), t, cpos, cl.Src)
 	}
